@@ -231,6 +231,8 @@ class FnView:
             inner = self.val_term(v[3], depth)
             if inner[0] == "call" and inner[1].split("::")[-1] == v[1] and len(inner) > 2 + v[2]:
                 return inner[2 + v[2]]
+            if v[1] == "Some" and v[2] == 0 and inner[0] == "call" and inner[1] == SLICE_GET and len(inner) == 4:
+                return ("index", inner[2], inner[3])          # the element `s.get(i)` found is s[i]
             return ("variant", v[1], v[2], inner)
         if t == "pfield":
             if str(v[1]).isdigit():
@@ -419,6 +421,10 @@ class FnView:
         if k == "letexpr":
             it_ = T(n["init"])
             pt_ = pat_term(n["pat"])
+            if it_[0] == "call" and it_[1] == SLICE_GET and len(it_) == 4 and pt_[0] == "ptstruct" and pt_[1].endswith("::Some") \
+                    and len(pt_) == 3 and pt_[2][0] in ("pbind", "_"):
+                # `if let Some(x) = s.get(i)` / `while let ..`  ==  `i < s.len()`
+                return mk_bin("<", it_[3], ("call", "core::slice::len", it_[2]))
             if it_[0] == "call" and it_[1] in NONZERO_NEW and len(it_) == 3 and pt_[0] == "ptstruct" \
                     and pt_[1].endswith("::Some") and len(pt_) == 3 and pt_[2][0] in ("pbind", "_"):
                 return mk_bin("<", ("lit", 0), it_[2])          # NonZero::new(x) is Some  ==  0 < x (unsigned)
@@ -660,6 +666,7 @@ def lit_term(n):
     return ("lit", v)
 
 
+SLICE_GET = "core::slice::get"
 NONZERO_NEW = ("std::num::NonZero::new", "core::num::NonZero::new", "core::num::nonzero::NonZero::new")
 NONZERO_GET = ("std::num::NonZero::get", "core::num::NonZero::get", "core::num::nonzero::NonZero::get")
 
